@@ -79,6 +79,7 @@ func Materialise(L *Layout) *zsimrt.FS {
 	fs.MkdirAll(fs.Cwd)
 	fs.Home = L.Home
 	fs.Env = append([]string(nil), L.OSEnv...)
+	fs.Stdin = []byte(L.Stdin)
 	return fs
 }
 
@@ -218,7 +219,7 @@ func RunLoad(L *Layout, fs *zsimrt.FS, stubFault string, render bool) (out *Outc
 	switch L.Entry {
 	case "cli":
 		var po *cli.ProjectOptions
-		opts := []cli.ProjectOptionsFn{cli.WithWorkingDirectory(L.WorkingDir), cli.WithOsEnv, cli.WithEnv(envList(L.Env)), cli.WithDotEnv,
+		opts := []cli.ProjectOptionsFn{cli.WithWorkingDirectory(L.WorkingDir), cli.WithOsEnv, cli.WithEnv(envList(L.Env)), cli.WithEnvFiles(L.CliEnvFiles...), cli.WithDotEnv,
 			cli.WithConfigFileEnv, cli.WithDefaultConfigPath, cli.WithResourceLoader(stub), cli.WithLoadOptions(loadOptions(L)...)}
 		if L.Opts.ProjectName != "" && L.Opts.NameImperative {
 			opts = append(opts, cli.WithName(L.Opts.ProjectName))
